@@ -152,6 +152,14 @@ def _call(args):
             return ('ok', rep)
         return ('err', 'TaskTimeout in a worker that does not return a report: %s' % e)
     except BaseException as e:  # noqa
+        from .oracle import Violation as _V
+        if getattr(func, 'returns_report', True) and isinstance(e, _V):
+            # a violation noticed while a task was still setting up (building its operands)
+            rep = Report()
+            sig = 'setup:' + e.what
+            rep.violation(sig, e.what + ' (while the operands of a task were being built)',
+                          dict(task=jsonable(item), sig=sig), **e.detail)
+            return ('ok', rep)
         if getattr(func, 'returns_report', True) and isinstance(e, Exception):
             rep = library_exception_report(e, item)
             if rep is not None:
